@@ -2,6 +2,38 @@
 // (memory and sqlite) and prints the recorded histories: for every call its
 // goroutine, operation, projected result and invocation / return stamps from
 // one global counter, plus the final contents. One JSON line per run.
+//
+// Usage-pattern audit (round 3): what a concurrent user can do, which stream
+// does it. Every run uses ONE store object (one memKV / one sqlx.DB pool and
+// one KV handle) shared by all goroutines - that is the pattern of the
+// statement; every third run is on the key-hashing kind of store.
+//
+//	calls under contention                streams
+//	Mutate (increment)                    counter (2..16 goroutines, 2 counters), lin, forced
+//	Mutate whose function fails /         forced: mutate-fail, mutate-cancel, mutate-panic (the holder's function
+//	 cancels / panics while others wait     ends that way after the others have made or queued their calls; then
+//	                                        writers and readers run: no lock, transaction or value may remain);
+//	                                        lin: increments of a non-numeric value fail in the function
+//	AppendBytes                           append (unique tokens, per-goroutine order), lin, forced walk/append,
+//	                                        mutate/append-inside; the argument is a sub-slice of a scratch page
+//	                                        the goroutine overwrites after the call
+//	Add / Emplace (absent key)            addrace, emplacerace (every goroutine, every key), lin,
+//	                                        forced walk/add, walk/emplace, mutate/add+emplace-inside
+//	Remove (present key)                  removerace (every goroutine removes every key: one success each), lin,
+//	                                        forced walk/remove, mutate/remove-inside
+//	Replace                               lin, forced walk/replace, mutate/replace-inside
+//	Get / GetBytes / Count                lin, forced probes during a held Walk / Mutate; returned slices are
+//	                                        overwritten by the caller
+//	Walk holding its read lock / SHARED   forced walk/* (11 schedules): every writer kind during the walk; a walk
+//	                                        whose Do fails, cancels or panics (walk-fail/-cancel/-panic), writers after
+//	Mutate holding its lock / transaction forced mutate/*: every writer kind and readers inside; both-read-then-write
+//	BUSY then later calls                 forced (sqlite): the refused call, then the same connection pool is used
+//	                                        by probes and by the calls after the holder; durable contents re-read
+//	                                        after closing and reopening the file
+//	Set / SetClass / Clear / walks as     not in the statement's operation set; sequentially in harness/cmd/c05
+//	 recorded concurrent calls
+//	two pools / two processes on a file   not exercised (same SQLite locking as two connections of one pool)
+//	PostgreSQL                            cannot run here (model + open finding)
 package main
 
 import (
@@ -26,7 +58,7 @@ import (
 )
 
 type Op struct {
-	Op string `json:"op"` // incr | append | add | emplace | replace | remove | get | getbytes
+	Op string `json:"op"` // incr | incr-fail | incr-cancel | incr-panic | append | add | emplace | replace | remove | get | getbytes | count
 	K  string `json:"k"`  // hex
 	V  string `json:"v,omitempty"`
 }
@@ -74,6 +106,29 @@ type Hold struct {
 }
 
 var errUser = errors.New("user callback failed")
+
+// userPanic is what a panicking user callback panics with (recorded as
+// "upanic"; any other panic value is pisces' own).
+type userPanic struct{}
+
+// The caller's memory: every goroutine appends from one scratch page it
+// recycles as soon as the call has returned, and overwrites the slices it is
+// given once it has recorded them (see harness/cmd/c05).
+const scratchFill = 0xee
+
+func scratchArg(page *[]byte, b []byte) []byte {
+	if len(*page) < len(b)+64 {
+		*page = make([]byte, 2*len(b)+256)
+	}
+	copy((*page)[7:], b)
+	return (*page)[7 : 7+len(b)]
+}
+
+func overwrite(b []byte) {
+	for i := range b {
+		b[i] = scratchFill
+	}
+}
 
 var spin int64
 
@@ -145,13 +200,19 @@ func apply(kv *pisces.KV, op Op) (e, msg string, b *string) {
 func applyCb(kv *pisces.KV, op Op, inCallback func()) (e, msg string, b *string, n *int64) {
 	defer func() {
 		if r := recover(); r != nil {
-			e, msg = "panic", fmt.Sprint(r)
+			if _, mine := r.(userPanic); mine {
+				e, msg = "upanic", ""
+			} else {
+				e, msg = "panic", fmt.Sprint(r)
+			}
 		}
 	}()
 	k := string(unhex(op.K))
 	var err error
+	var page []byte
+	defer func() { overwrite(page) }()
 	switch op.Op {
-	case "incr":
+	case "incr", "incr-fail", "incr-cancel", "incr-panic":
 		var raw json.RawMessage
 		err = kv.Mutate(k, &raw, func(v interface{}) error {
 			p := v.(*json.RawMessage)
@@ -163,6 +224,16 @@ func applyCb(kv *pisces.KV, op Op, inCallback func()) (e, msg string, b *string,
 			if inCallback != nil {
 				inCallback()
 			}
+			switch op.Op {
+			case "incr-fail": // changes its argument, then fails
+				*p = json.RawMessage("77")
+				return errUser
+			case "incr-cancel":
+				*p = json.RawMessage("77")
+				return pisces.ErrCancel
+			case "incr-panic":
+				panic(userPanic{})
+			}
 			nv, ok := incr([]byte(*p))
 			if !ok {
 				return errUser
@@ -171,7 +242,7 @@ func applyCb(kv *pisces.KV, op Op, inCallback func()) (e, msg string, b *string,
 			return nil
 		})
 	case "append":
-		err = kv.AppendBytes(k, unhex(op.V))
+		err = kv.AppendBytes(k, scratchArg(&page, unhex(op.V)))
 	case "add":
 		err = kv.Add(k, json.RawMessage(unhex(op.V)))
 	case "emplace":
@@ -193,6 +264,7 @@ func applyCb(kv *pisces.KV, op Op, inCallback func()) (e, msg string, b *string,
 		if err == nil {
 			s := hx2(bs)
 			b = &s
+			overwrite(bs)
 		}
 	case "count":
 		var c int64
@@ -210,9 +282,11 @@ func applyCb(kv *pisces.KV, op Op, inCallback func()) (e, msg string, b *string,
 // ---- backends ----
 
 type env struct {
-	dir string
-	n   int
-	db  *sqlx.DB
+	dir     string
+	n       int
+	db      *sqlx.DB
+	runs    int
+	hashing bool
 }
 
 func openEnv() *env {
@@ -238,7 +312,12 @@ func (e *env) close() {
 // connection pool, so that nothing of one run reaches the next.
 func (e *env) fresh(backend string) *pisces.KV {
 	const table = "verifkv"
+	e.runs++
+	e.hashing = e.runs%3 == 0 // every third run on the key-hashing kind of store
 	if backend == "mem" {
+		if e.hashing {
+			return pisces.NewMemKV()
+		}
 		return pisces.NewOrderedMemKV()
 	}
 	if e.db != nil {
@@ -254,6 +333,9 @@ func (e *env) fresh(backend string) *pisces.KV {
 	e.db = db
 	if err := pisces.Sqlite3CreateKV(e.db, table); err != nil {
 		panic(err)
+	}
+	if e.hashing {
+		return pisces.NewSqlite3KV(e.db, table)
 	}
 	return pisces.NewOrderedSqlite3KV(e.db, table)
 }
@@ -285,6 +367,45 @@ func execute(kv *pisces.KV, progs [][]Op) []Call {
 		}(t)
 	}
 	close(start)
+	wg.Wait()
+	var all []Call
+	for _, cs := range out {
+		all = append(all, cs...)
+	}
+	return all
+}
+
+// executeRounds is execute for programs of equal length with a barrier before
+// every [every]-th call: these calls of all goroutines are released together, so
+// that calls on one key really arrive at the same time (a check made under a
+// shared lock is then passed by several of them at once).
+func executeRounds(kv *pisces.KV, progs [][]Op, every int) []Call {
+	var clock int64
+	n := len(progs[0])
+	arrived := make([]int32, n)
+	var wg sync.WaitGroup
+	out := make([][]Call, len(progs))
+	for t := range progs {
+		wg.Add(1)
+		go func(t int) {
+			defer wg.Done()
+			for x, op := range progs[t] {
+				if x%every == 0 {
+					atomic.AddInt32(&arrived[x], 1)
+					for spins := 0; atomic.LoadInt32(&arrived[x]) < int32(len(progs)); spins++ {
+						if spins > 50 {
+							runtime.Gosched()
+						}
+					}
+				}
+				c := Call{T: t, Op: op}
+				c.Inv = atomic.AddInt64(&clock, 1)
+				c.E, c.Msg, c.B = apply(kv, op)
+				c.Ret = atomic.AddInt64(&clock, 1)
+				out[t] = append(out[t], c)
+			}
+		}(t)
+	}
 	wg.Wait()
 	var all []Call
 	for _, cs := range out {
@@ -340,6 +461,9 @@ func (e *env) reopen() *pisces.KV {
 		panic(err)
 	}
 	e.db = db
+	if e.hashing {
+		return pisces.NewSqlite3KV(e.db, "verifkv")
+	}
 	return pisces.NewOrderedSqlite3KV(e.db, "verifkv")
 }
 
@@ -368,6 +492,30 @@ func (f *forcedRec) timed(t int, op Op, inCallback func()) Call {
 	return c
 }
 
+// hangLimit bounds the wait for a goroutine of a forced schedule after the
+// holder has returned: a call that is still blocked then (a lock or a
+// transaction left behind) is the observation "hang".
+const hangLimit = 10 * time.Second
+
+// collect waits for the goroutine that fills *calls (under mu) and closes
+// done; if it does not finish, what it completed is returned together with a
+// "hang" record for the call it is stuck in.
+func collect(mu *sync.Mutex, calls *[]Call, done chan struct{}, t int, ops []Op) ([]Call, bool) {
+	hung := false
+	select {
+	case <-done:
+	case <-time.After(hangLimit):
+		hung = true
+	}
+	mu.Lock()
+	defer mu.Unlock()
+	out := append([]Call{}, (*calls)...)
+	if hung && len(out) < len(ops) {
+		out = append(out, Call{T: t, Op: ops[len(out)], E: "hang", Msg: "the call had not returned " + hangLimit.String() + " after the holder returned"})
+	}
+	return out, hung
+}
+
 func waitFor(ch chan struct{}) {
 	select {
 	case <-ch:
@@ -379,9 +527,17 @@ func waitFor(ch chan struct{}) {
 // goroutine 1 runs [during] and then goroutine 2 runs [probes]; after the
 // walk goroutine 3 runs [after].
 func forcedWalk(kv *pisces.KV, during, probes, after []Op) ([]Call, *Hold) {
+	return forcedWalkEnd(kv, during, probes, after, "")
+}
+
+// forcedWalkEnd: the same, and the Do of the first entry ends the walk by
+// returning a user error ("user"), ErrCancel ("cancel") or by panicking
+// ("panic") once the other goroutines have made their calls.
+func forcedWalkEnd(kv *pisces.KV, during, probes, after []Op, end string) ([]Call, *Hold) {
 	f := &forcedRec{kv: kv}
 	hold := &Hold{Writer: false}
 	var c1, c2 []Call
+	var mu sync.Mutex
 	d1 := make(chan struct{})
 	d2 := make(chan struct{})
 	first := true
@@ -395,31 +551,57 @@ func forcedWalk(kv *pisces.KV, during, probes, after []Op) ([]Call, *Hold) {
 			hold.Mid = atomic.AddInt64(&f.clock, 1)
 			go func() {
 				for _, op := range during {
-					c1 = append(c1, f.timed(1, op, nil))
+					c := f.timed(1, op, nil)
+					mu.Lock()
+					c1 = append(c1, c)
+					mu.Unlock()
 				}
 				close(d1)
 			}()
 			waitFor(d1)
 			go func() {
 				for _, op := range probes {
-					c2 = append(c2, f.timed(2, op, nil))
+					c := f.timed(2, op, nil)
+					mu.Lock()
+					c2 = append(c2, c)
+					mu.Unlock()
 				}
 				close(d2)
 			}()
 			waitFor(d2)
 			hold.Out = atomic.AddInt64(&f.clock, 1)
+			switch end {
+			case "user":
+				return errUser
+			case "cancel":
+				return pisces.ErrCancel
+			case "panic":
+				panic(userPanic{})
+			}
 			return nil
 		},
 	}
-	kv.Walk(it)
+	func() {
+		defer func() {
+			if r := recover(); r != nil {
+				if _, mine := r.(userPanic); !mine {
+					panic(r)
+				}
+			}
+		}()
+		kv.Walk(it)
+	}()
 	hold.Ret = atomic.AddInt64(&f.clock, 1)
 	if first { // nothing to walk over: no schedule was forced
 		close(d1)
 		close(d2)
 	}
-	<-d1
-	<-d2
-	calls := append(append([]Call{}, c1...), c2...)
+	r1, h1 := collect(&mu, &c1, d1, 1, during)
+	r2, h2 := collect(&mu, &c2, d2, 2, probes)
+	calls := append(r1, r2...)
+	if h1 || h2 {
+		return calls, hold // the store is stuck: nothing more can be asked of it
+	}
 	for _, op := range after {
 		calls = append(calls, f.timed(3, op, nil))
 	}
@@ -432,13 +614,21 @@ func forcedWalk(kv *pisces.KV, during, probes, after []Op) ([]Call, *Hold) {
 // for goroutine 0's Mutate to finish, and goroutine 0 only waits until that
 // function has been entered (both have read, then 0 writes first).
 func forcedMutate(kv *pisces.KV, k string, during []Op, bothRead bool, after []Op) ([]Call, *Hold) {
+	return forcedMutateAs(kv, "incr", k, during, bothRead, after)
+}
+
+// forcedMutateAs: the holder is the given kind of Mutate (incr, incr-fail,
+// incr-cancel, incr-panic): its function fails, cancels or panics after the
+// other goroutine has made (or queued) its calls.
+func forcedMutateAs(kv *pisces.KV, holder, k string, during []Op, bothRead bool, after []Op) ([]Call, *Hold) {
 	f := &forcedRec{kv: kv}
 	hold := &Hold{Writer: true}
 	var c1 []Call
+	var mu sync.Mutex
 	d1 := make(chan struct{})
 	entered := make(chan struct{})
 	zeroDone := make(chan struct{})
-	c0 := f.timed(0, Op{Op: "incr", K: k}, func() {
+	c0 := f.timed(0, Op{Op: holder, K: k}, func() {
 		hold.Mid = atomic.AddInt64(&f.clock, 1)
 		go func() {
 			for i, op := range during {
@@ -446,7 +636,10 @@ func forcedMutate(kv *pisces.KV, k string, during []Op, bothRead bool, after []O
 				if bothRead && i == 0 {
 					cb = func() { close(entered); waitFor(zeroDone) }
 				}
-				c1 = append(c1, f.timed(1, op, cb))
+				c := f.timed(1, op, cb)
+				mu.Lock()
+				c1 = append(c1, c)
+				mu.Unlock()
 			}
 			close(d1)
 		}()
@@ -459,8 +652,11 @@ func forcedMutate(kv *pisces.KV, k string, during []Op, bothRead bool, after []O
 	})
 	hold.Ret = c0.Ret
 	close(zeroDone)
-	<-d1
-	calls := append([]Call{c0}, c1...)
+	r1, h1 := collect(&mu, &c1, d1, 1, during)
+	calls := append([]Call{c0}, r1...)
+	if h1 {
+		return calls, hold // the store is stuck: nothing more can be asked of it
+	}
 	for _, op := range after {
 		calls = append(calls, f.timed(3, op, nil))
 	}
@@ -475,6 +671,8 @@ type forcedCase struct {
 func forcedFamily(a, b, n string) []forcedCase {
 	rd := []Op{{Op: "getbytes", K: a}, {Op: "getbytes", K: b}, {Op: "getbytes", K: n}}
 	rdc := append(append([]Op{}, rd...), Op{Op: "count"})
+	// afterwards: writers first (they need what the holder held), then the readers
+	wrc := append([]Op{{Op: "incr", K: a}, {Op: "append", K: b, V: h("1")}, {Op: "remove", K: n}}, rdc...)
 	walk := func(name string, during ...Op) forcedCase {
 		return forcedCase{"walk/" + name, func(kv *pisces.KV) ([]Call, *Hold) { return forcedWalk(kv, during, rd, rdc) }}
 	}
@@ -508,6 +706,38 @@ func forcedFamily(a, b, n string) []forcedCase {
 		}},
 		{"mutate/other-key-inside", func(kv *pisces.KV) ([]Call, *Hold) {
 			return forcedMutate(kv, a, []Op{{Op: "incr", K: b}, {Op: "append", K: n, V: h("8")}}, false, rdc)
+		}},
+		// the remaining single-statement writers against an open Mutate of the same key / a new key
+		{"mutate/append-inside", func(kv *pisces.KV) ([]Call, *Hold) {
+			return forcedMutate(kv, a, []Op{{Op: "append", K: a, V: h("5")}, {Op: "getbytes", K: a}}, false, rdc)
+		}},
+		{"mutate/add+emplace-inside", func(kv *pisces.KV) ([]Call, *Hold) {
+			return forcedMutate(kv, a, []Op{{Op: "add", K: n, V: h("1")}, {Op: "emplace", K: n, V: h("2")}, {Op: "emplace", K: a, V: h("3")},
+				{Op: "add", K: a, V: h("4")}}, false, rdc)
+		}},
+		// the holder's function fails, cancels or panics after the others have made their calls:
+		// nothing of it may remain (no lock, no open transaction, no value), the others' calls count
+		{"mutate-fail/incr-inside", func(kv *pisces.KV) ([]Call, *Hold) {
+			return forcedMutateAs(kv, "incr-fail", a, []Op{{Op: "incr", K: a}, {Op: "append", K: b, V: h("7")}}, false, wrc)
+		}},
+		{"mutate-cancel/incr-inside", func(kv *pisces.KV) ([]Call, *Hold) {
+			return forcedMutateAs(kv, "incr-cancel", a, []Op{{Op: "incr", K: a}, {Op: "replace", K: b, V: h("5")}}, false, wrc)
+		}},
+		{"mutate-panic/incr-inside", func(kv *pisces.KV) ([]Call, *Hold) {
+			return forcedMutateAs(kv, "incr-panic", a, []Op{{Op: "incr", K: a}, {Op: "add", K: n, V: h("1")}}, false, wrc)
+		}},
+		{"mutate-panic/both-read", func(kv *pisces.KV) ([]Call, *Hold) {
+			return forcedMutateAs(kv, "incr-panic", a, []Op{{Op: "incr", K: a}}, true, wrc)
+		}},
+		// a walk that ends by an error, a cancel or a panic of its Do while a writer was refused / queued
+		{"walk-fail/incr", func(kv *pisces.KV) ([]Call, *Hold) {
+			return forcedWalkEnd(kv, []Op{{Op: "incr", K: a}}, rd, wrc, "user")
+		}},
+		{"walk-cancel/append", func(kv *pisces.KV) ([]Call, *Hold) {
+			return forcedWalkEnd(kv, []Op{{Op: "append", K: b, V: h("7")}}, rd, wrc, "cancel")
+		}},
+		{"walk-panic/incr", func(kv *pisces.KV) ([]Call, *Hold) {
+			return forcedWalkEnd(kv, []Op{{Op: "incr", K: a}}, rd, wrc, "panic")
 		}},
 	}
 }
@@ -575,6 +805,19 @@ func main() {
 			calls, hold := fc.run(kv)
 			if backend == "sqlite" {
 				hold = nil // sqlite refuses instead of blocking
+			}
+			stuck := false
+			for _, c := range calls {
+				stuck = stuck || c.E == "hang"
+			}
+			if stuck {
+				// reading the final contents would block as well
+				out.Emit(Run{I: i, Stream: "forced", Name: fc.name, Backend: backend, Threads: 4, Init: init, Calls: calls, Count: -1})
+				i++
+				if backend == "sqlite" {
+					ev.db = nil // leave the stuck pool alone; the next run opens a new file
+				}
+				continue
 			}
 			emit(Run{Stream: "forced", Name: fc.name, Backend: backend, Threads: 4, Init: init, Calls: calls,
 				Final: finals(kv, []string{linKeys[0], linKeys[1], newKey}), Count: count(kv), Hold: hold})
@@ -644,6 +887,28 @@ func main() {
 				emit(Run{Stream: "append", Backend: backend, Threads: nt, Calls: calls,
 					Final: finals(kv, keys), Count: count(kv)})
 			}
+			// remove race: every goroutine removes every (existing) key
+			{
+				kv := ev.fresh(backend)
+				var keys []string
+				var init []Op
+				for x := 0; x < *per/4+1; x++ {
+					keys = append(keys, h(fmt.Sprintf("k%03d", x)))
+					init = append(init, Op{Op: "add", K: keys[x], V: h("5")})
+				}
+				for _, op := range init {
+					apply(kv, op)
+				}
+				progs := make([][]Op, nt)
+				for t := range progs {
+					for _, k := range keys {
+						progs[t] = append(progs[t], Op{Op: "remove", K: k})
+					}
+				}
+				calls := executeRounds(kv, progs, 1)
+				emit(Run{Stream: "removerace", Backend: backend, Threads: nt, Init: init, Calls: calls,
+					Final: finals(kv, keys), Count: count(kv)})
+			}
 			// add race / emplace race: every goroutine tries every key with its own value
 			for _, kind := range []string{"add", "emplace"} {
 				kv := ev.fresh(backend)
@@ -655,9 +920,17 @@ func main() {
 				for t := range progs {
 					for _, k := range keys {
 						progs[t] = append(progs[t], Op{Op: kind, K: k, V: h(fmt.Sprintf("%d", 100+t))})
+						if kind == "emplace" {
+							// what the goroutine reads once its Emplace has returned is settled for good
+							progs[t] = append(progs[t], Op{Op: "getbytes", K: k})
+						}
 					}
 				}
-				calls := execute(kv, progs)
+				every := 1
+				if kind == "emplace" {
+					every = 2 // no barrier between a goroutine's Emplace and its own read
+				}
+				calls := executeRounds(kv, progs, every)
 				emit(Run{Stream: kind + "race", Backend: backend, Threads: nt, Calls: calls,
 					Final: finals(kv, keys), Count: count(kv)})
 			}
